@@ -145,7 +145,12 @@ func main() {
 	fixed := probeKeyField()
 	bytesKeyPanics := probeBytesKey()
 	nullKeyKnown := knownOpen(o.Verif, sigNullKey)
+	dl, ml, extracted := passthroughLists(o.Repo)
+	listsT := "(" + coqStrings(dl) + ", " + coqStrings(ml) + ")"
 	run.Extra = map[string]interface{}{
+		"passthrough_markReplaced":       strings.Join(dl, " "),
+		"passthrough_mergeReplaced":      strings.Join(ml, " "),
+		"passthrough_lists_from_sources": extracted,
 		"diffMap_skips_key_pseudo_field": fixed,
 		"bytes_key_makes_Diff_panic":     bytesKeyPanics,
 		"null_key_finding_registered":    nullKeyKnown,
@@ -581,7 +586,7 @@ func main() {
 			if ob.jsCompared {
 				jsT = "(Some " + coqWire(ob.jsOut) + ")"
 			}
-			fterms = append(fterms, fmt.Sprintf("(%d, mk_fcase %s %s %s %s)", idx, coqWire(ob.c.Fuzz.Prev), coqWire(ob.c.Fuzz.Delta), goT, jsT))
+			fterms = append(fterms, fmt.Sprintf("(%d, mk_fcase %s %s %s %s %s)", idx, coqStrings(ml), coqWire(ob.c.Fuzz.Prev), coqWire(ob.c.Fuzz.Delta), goT, jsT))
 			flush(false)
 			continue
 		}
@@ -614,7 +619,7 @@ func main() {
 		if ob.hasDelta {
 			dT = "(Some " + coqWire(ob.delta) + ")"
 		}
-		gterms = append(gterms, fmt.Sprintf("(%d, mk_gcase %s %s %s %s %s %s %s)", idx, vh.CoqBool(fixed), coqGuides(ob.guides), coqTyped(ob.typedOld), coqTyped(ob.typedNew), dT, goT, jsT))
+		gterms = append(gterms, fmt.Sprintf("(%d, mk_gcase %s %s %s %s %s %s %s %s)", idx, listsT, vh.CoqBool(fixed), coqGuides(ob.guides), coqTyped(ob.typedOld), coqTyped(ob.typedNew), dT, goT, jsT))
 		flush(false)
 	}
 	flush(true)
